@@ -26,10 +26,21 @@ Reasons(ev) ==
           "not-linearizable")
   \o When(~ev.poisoned /\ ~ev.deadlock /\ ~Mirror(AsFun(ev.final.out), AsFun(ev.final.inn)), "mirror-broken-at-quiescence")
 
+\* a free-running round whose only mutators are connects: every call returned, nothing
+\* panicked or was poisoned, and the final graph holds exactly the performed connects, mirrored
+StressReasons(ev) ==
+     When(ev.hang, "deadlock")
+  \o When(ev.panic, "panic")
+  \o When(ev.poisoned, "poisoned-lock")
+  \o When(ev.readable /\ ~Mirror(AsFun(ev.final.out), AsFun(ev.final.inn)), "mirror-broken-at-quiescence")
+  \o When(ev.readable /\ \E u \in Nodes, v \in Nodes :
+            CountOf(AsFun(ev.final.out)[u], v, 1) # Cardinality({k \in 1..Len(ev.connects) : ev.connects[k] = <<u, v>>}),
+          "not-linearizable")
+
 TNext ==
   /\ l <= Len(Rec)
   /\ l' = l + 1
-  /\ LET v == Reasons(Rec[l]) IN
+  /\ LET v == IF Rec[l].ev = "stress" THEN StressReasons(Rec[l]) ELSE Reasons(Rec[l]) IN
      /\ IF v = <<>> THEN TRUE ELSE PrintT(<<"REJECT", l, v>>)
      /\ nbad' = IF v = <<>> THEN nbad ELSE nbad + 1
   /\ UNCHANGED <<out, inn>>
